@@ -299,7 +299,28 @@ class NpProxy:
             return lambda a, b, rtol=1e-05, atol=1e-08, equal_nan=False: bool(np.all(_isclose(a, b, rtol, atol, equal_nan)))
         if self._objc and name in ("ones", "zeros", "empty", "full", "eye", "ones_like", "zeros_like"):
             return getattr(self, "_c_" + name)
+        if self._objc and name in ("array", "asarray"):
+            return self._c_array if name == "array" else self._c_asarray
         return getattr(np, name)
+
+    # np.array(x, dtype=float) of symbolic content: a float conversion is the identity on (exact) symbolic reals - keep an object copy
+    @staticmethod
+    def _sym_content(a):
+        try:
+            flat = np.asarray(a, dtype=object).reshape(-1)
+        except Exception:
+            return False
+        return any(is_sym(v) for v in flat)
+
+    def _c_array(self, a, dtype=None, *args, **kw):
+        if dtype is not None and dtype is not object and np.dtype(dtype).kind == "f" and self._sym_content(a):
+            return np.array(a, dtype=object).view(SymArray)
+        return np.array(a, dtype, *args, **kw) if dtype is not None else np.array(a, *args, **kw)
+
+    def _c_asarray(self, a, dtype=None, *args, **kw):
+        if dtype is not None and dtype is not object and np.dtype(dtype).kind == "f" and self._sym_content(a):
+            return np.asarray(a, dtype=object).view(SymArray)
+        return np.asarray(a, dtype, *args, **kw) if dtype is not None else np.asarray(a, *args, **kw)
 
     # object-array constructors (so that later stores of symbols do not call float())
     def _c_ones(self, shape, dtype=None):
